@@ -111,7 +111,30 @@ def cases(rng, quick, gr):
             base = g.script(syms_prob=0.3)
         except Exception:  # noqa: BLE001
             continue
+        if i % 3 == 0:
+            # make the last construct an array declaration, a loop, or a declaration (the grammar treats line ends differently there)
+            extra = rng.choice(["float array Zz =\n    1.5, 2\n    3, 4.25\n", "for int zi in 0:2\n    Vac | zi\n", "int array Zz[1, 2] =\n    7, 8\n",
+                                "float zz9 = 1.5\n"])
+            base = base.rstrip("\n") + "\n" + extra
         yield {"tag": "base", "text": base}
+        # end-of-text variants: final newline absent, with 1-3 trailing spaces and/or a trailing comment, LF and CRLF
+        stripped = base.rstrip("\n")
+        for nl in (("\n", "\r\n") if (i % 3 == 0 or not quick) else ()):
+            body = stripped.replace("\n", nl)
+            for tail in ("", " ", "  ", "   ", " # end", "  #"):
+                variant = body + tail
+
+                def pred(impl, a=base, b=variant, tail=tail, nl=nl):
+                    try:
+                        pa = impl.loads(a)
+                    except Exception:  # noqa: BLE001
+                        return None
+                    try:
+                        pb = impl.loads(b)
+                    except Exception as e:  # noqa: BLE001
+                        return "no final newline, last line followed by %r (%s line ends): a valid script fails: %s: %s" % (tail, "CRLF" if nl != "\n" else "LF", type(e).__name__, str(e)[:100])
+                    return None if digest(pa) == digest(pb) else "no final newline + %r changes the loaded program" % tail
+                yield {"tag": "end-of-text", "text": variant, "pred": pred, "input": {"check": "layout", "text": base, "variant": variant, "edits": ["no-final-newline", repr(tail)]}}
         for _ in range(nedit):
             variant, tags = edit(rng, base)
 
